@@ -67,6 +67,13 @@ CLAIMED = {
             'leaves without fabricating a verdict (returns l_Undef / "no conflict", or a variable not assigned after the stop), with summaries for polling callees; '
             '(3) the undetermined value is carried unchanged to sstat/check/checkSat. Necessary conditions of the property; races with destruction and promptness not decided.',
             'static analysis: type/effect rule + path-sensitive RETURN-ON-PREDICATE walk over the structured mini-AST', 'stop flags sticky during a check'),
+    'C06': ('other',
+            'Static: the chain proof-leaf -> partition mask -> assertion -> name is checked link by link: every original clause added by MainSolver gets its mask on '
+            'every tracked path; the core builder collects CLA_ORIG and expands every chain-carrying clause kind; stores into the formula->partition-index maps '
+            'overwrite (latest insertion wins) and must be rolled back on pop; every rewrite in the per-partition preprocessing branch transfers the index before '
+            'the clauses are tagged; named/hidden splitting uses the scoped TermNames registry and the current assertion view; pop invalidates popped partitions. '
+            'Necessary structural clauses; unsatisfiability of the reported set is not decided. One known finding (index of a duplicated assertion after pop).',
+            'static analysis: MUST-CALL path walk, container-protocol and exhaustiveness rules over the type-checked AST (LibTooling facts)', ''),
 }
 
 NOT_APPLICABLE = {
